@@ -112,6 +112,33 @@ def gen_sched_case(rng, quick):
     return c, meta
 
 
+def pinned_sched_cases():
+    """cases every run executes first (no randomness): one stream of a host reaches EOF long before the other one
+    gets its data (virtual arrival times 0 vs 1, 2, 3) -- the poll loop has to go on with the remaining
+    descriptor alone (seeded C05-3: loop condition on stdout only) -- in both directions, under three schedules"""
+    out = []
+    for early, late in (("out", "err"), ("err", "out")):
+        for strat, seed in (("uniform", 11), ("first", 1), ("pct", 5)):
+            targets = [b"h1", b"h10"]
+            hosts, streams = [], {}
+            for i, t in enumerate(targets):
+                n = t
+                e_payload = n + b" early 1\n" + n + b" early tail"
+                l_chunks = [n + b" late 1\n", n + b" late 2\nla", b"te 3\n" + n + b" late tail"]
+                h = {"name": t.decode(), early: [[0, hexs(e_payload)]],
+                     late: [[at + 1, hexs(c)] for at, c in enumerate(l_chunks)]}
+                hosts.append(h)
+                streams[(i, "o" if early == "out" else "e")] = e_payload
+                streams[(i, "e" if early == "out" else "o")] = b"".join(l_chunks)
+            c = {"fanout": 2, "hosts": hosts, "seed": seed, "yield": "all", "inline": 0, "budget": 60000,
+                 "opts": {"labels": 1, "sopt": 1, "K": 0}, "strategy": strat, "tickrate": 60}
+            if strat == "pct":
+                c["pct"] = [3, 200]
+            out.append((c, {"targets": targets, "labels": True, "K": False, "streams": streams,
+                            "strategy": strat, "abandoned": [], "pinned": "%s-ends-first" % early}))
+    return out
+
+
 # ----------------------------------------------------------------------------- schedules
 def preempt_at_fputs(exe, case, scratch, rot=0, max_iter=120):
     """PF: after every stdio call of any worker switch to ANOTHER runnable worker and stay with it until the
@@ -334,7 +361,7 @@ def run_sched(ctx, prop, cov, dist, exe=None):
         return
     quick = ctx.quick()
     n = 200 if quick else 5000
-    specs = [gen_sched_case(rng, quick) for _ in range(n)]
+    specs = pinned_sched_cases() + [gen_sched_case(rng, quick) for _ in range(n)]
 
     def one(spec):
         case, meta = spec
